@@ -510,9 +510,6 @@ func report(o *Options, w *World, results []*FuncResult, jobs []*job, start time
 	violations := 0
 	knownHits := 0
 	exit := 0
-	if o.replayDir != "" {
-		os.RemoveAll(o.replayDir)
-	}
 	writeReplay := func(name string, content map[string]interface{}) string {
 		if o.replayDir == "" {
 			return ""
